@@ -91,19 +91,40 @@ class Summary:
         self.assigns = []  # (pathcond, target-name, term, node): every binding in order
 
     def ret(self):
-        """Single merged return term (phi chain over path conditions)."""
+        """Single merged return term: the decision tree over the path conditions of the returns. `if c: return a` + `return b`,
+        `if c: return a else: return b` and `if not c: return b` + `return a` all give phi(c, a, b)."""
         if not self.returns:
             return ("const", None)
         if len(self.returns) == 1:
             return self.returns[0][1]
-        t = self.returns[-1][1]
-        for pc, term, _ in reversed(self.returns[:-1]):
-            cond = pc_term(pc)
-            if cond[0] == "un" and cond[1] == "not":  # `if not c: return a` + rest  is  `if c: rest else: return a`: one polarity
-                t = ("phi", cond[2], t, term)
-            else:
-                t = ("phi", cond, term, t)
-        return t
+
+        def tree(rets, depth):
+            if len(rets) == 1:
+                return rets[0][1]
+            leaf = [r for r in rets if len(r[0]) <= depth]
+            if leaf:
+                # a return whose path ends here although others go on: fall back to the chain form for this group
+                t = rets[-1][1]
+                for pc, term, _ in reversed(rets[:-1]):
+                    cond = pc_term(pc[depth:])
+                    t = ("phi", cond[2], t, term) if cond[0] == "un" and cond[1] == "not" else ("phi", cond, term, t)
+                return t
+            c = rets[0][0][depth][0]
+            if any(r[0][depth][0] != c for r in rets):
+                t = rets[-1][1]
+                for pc, term, _ in reversed(rets[:-1]):
+                    cond = pc_term(pc[depth:])
+                    t = ("phi", cond[2], t, term) if cond[0] == "un" and cond[1] == "not" else ("phi", cond, term, t)
+                return t
+            yes = [r for r in rets if r[0][depth][1]]
+            no = [r for r in rets if not r[0][depth][1]]
+            if not yes:
+                return tree(no, depth + 1)
+            if not no:
+                return tree(yes, depth + 1)
+            ty, tn = tree(yes, depth + 1), tree(no, depth + 1)
+            return ty if ty == tn else ("phi", c, ty, tn)
+        return tree(list(self.returns), 0)
 
 
 def pc_term(pc):
@@ -111,6 +132,13 @@ def pc_term(pc):
         return ("const", True)
     parts = tuple(c if pol else ("un", "not", c) for c, pol in pc)
     return parts[0] if len(parts) == 1 else ("bool", "and", parts)
+
+
+def own_conditions(summary, pc):
+    """the entries of a path condition that are NOT just 'an earlier guard clause did not fire' (the complement of the last condition of
+    some return / raise with the same prefix): what genuinely restricts the statement"""
+    exits = {(x[0][:-1], x[0][-1][0], x[0][-1][1]) for x in list(summary.returns) + list(summary.raises) if x[0]}
+    return [(c, pol) for i, (c, pol) in enumerate(pc) if (pc[:i], c, not pol) not in exits]
 
 
 class Builder:
@@ -426,11 +454,15 @@ class _Eval:
             self.dead = True
             return
         if a.dead:
+            # `if c: return ..` followed by REST is `if c: return .. else: REST`: REST runs under (not c) in either spelling
             self.adopt(b)
-            self.pc = self.pc  # unchanged; the surviving path condition is implicit
+            if cond[0] != "exc":
+                self.pc = self.pc + ((cond, False),)
             return
         if b.dead:
             self.adopt(a)
+            if cond[0] != "exc":
+                self.pc = self.pc + ((cond, True),)
             return
         env = {}
         for k in set(a.env) | set(b.env):
